@@ -26,6 +26,22 @@ CHECKS = {
    text="Generated tree x one mutating operation (all kinds, escaping/'..'-final/absolute argument paths) x backend, alone and under the syscall-boundary attacker (all placements of one mutation, or sampled multi-mutation schedules); frame condition over the whole sandbox: nothing that was never inside the root is removed, replaced, modified or gains an entry, and returned descriptors lie below ever-inside directories.",
    note="nlink and time stamps not compared; attacker's own objects are excluded by name; pre-emption granularity = library syscalls.",
    technique="property-based testing with whole-sandbox snapshot frame condition and syscall-boundary attacker (seccomp gate)"),
+ "C10": dict(level="fault_enumeration", ref="DESIGN.md §3 C10",
+   text="For each generated scenario (tree x one library call x kernel configuration x cold/warm start) the call's syscall trace is recorded and then EVERY (syscall index x applicable errno) single fault plus sticky EAGAIN-on-openat2 and EMFILE/ENFILE-on-fd-creation sequences from every index are injected by a seccomp supervisor, one fresh run each. Oracle: returns within a syscall bound, no panic/abort, outside untouched, descriptor table intact, and success only with the un-faulted result. Exhaustive per scenario, sampled over scenarios.",
+   note="Faults are injected at the syscall boundary of the library thread; close/dup are not failed; interpreted errnos (ENOENT, EEXIST, ENOTDIR, ELOOP, EXDEV) are not faults.",
+   technique="exhaustive single-fault and sticky-fault injection at syscall boundaries (seccomp gate) over proptest-generated scenarios"),
+ "C12": dict(level="exploration", ref="DESIGN.md §3 C12",
+   text="Generated tree x mkdir_all path x mode x umask x backend, sequential and with 2-3 concurrent callers interleaved at syscall granularity by a generated schedule; snapshot-diff oracle (only a single chain of directories named after path components, correct modes, nothing else touched) and identity of the returned handle with an independent openat2 in-root resolution afterwards.",
+   note="Scheduler interleaves at the callers' own syscalls (descriptor-local calls excluded), <=4 pre-emptions; the empty path is compared with '.'; paths >= PATH_MAX are not compared with the kernel.",
+   technique="property-based testing with snapshot-diff oracle and a deterministic syscall-level thread scheduler (seccomp gate)"),
+ "C13": dict(level="exploration", ref="DESIGN.md §3 C13",
+   text="Generated trees with wide/deep bulk directories full of links (to '..', '/', outside) x path spellings x backend, sequential and with 2-3 concurrent callers under a generated syscall-level schedule; whole-sandbox snapshot oracle: only the named subtree disappears, nothing added/modified, '.'/'..' refused, concurrent callers succeed.",
+   note="The entry a path names is determined by the harness's own openat2 resolution of the parent before the call; scheduler granularity = syscalls.",
+   technique="property-based testing with whole-filesystem snapshot diff and deterministic syscall-level scheduling"),
+ "C14": dict(level="exploration", ref="DESIGN.md §3 C14",
+   text="Twin trees: the library operation on one, on the other the harness's own openat2(RESOLVE_IN_ROOT) of the parent plus the single raw *at syscall on (parent, final name); outcomes (errno), resulting trees and create_file descriptor identity/flags must match. Search over trees, operations, spellings, flags, modes, umask, backends, APIs.",
+   note="Kernel *at calls are the reference; O_CREAT|O_PATH excluded here (C03); >40 traversals outside the domain; tmpfs only.",
+   technique="property-based differential testing against raw *at system calls on a twin tree"),
 }
 NOT_YET = {}
 ALL = ["C%02d" % i for i in range(1, 19)]
